@@ -949,6 +949,7 @@ func (m *Machine) rangeIter(x value, t types.Type) iterator {
 		ents := x.live()
 		if m.mapOrder && len(ents) > 1 {
 			// choose an arbitrary permutation (Go's map iteration order is unspecified)
+			m.facts["_maporder"] = "nondet"
 			perm := make([]*mapEntry, 0, len(ents))
 			rest := append([]*mapEntry(nil), ents...)
 			for len(rest) > 0 {
